@@ -14,6 +14,7 @@ func init() {
 	fw.Register(&fw.Property{
 		ID:    "C03",
 		Level: "exploration",
+		Jitter: true,
 		Rule: "(a) exhaustive symbol-pair tables: for each gap mode and four case layouts an alignment whose columns enumerate all 17x17 (reference symbol, query symbol) pairs at three positions each; (b) random alignments (width 1-2000, 1-40 records, IUPAC/gap-biased symbols, random line widths and case); " +
 			"distinct non-trivial = distinct (gap mode, reference symbol, query symbol, case layout) cells observed plus distinct (width class, record count) shapes of random alignments that contained at least one SNP and one ambiguous-compatible column",
 		Assumptions:  []string{"the IUPAC base-set table in harness/internal/model/iupac.go is correct", "the symbol-pair table is exhaustive; alignment shapes are sampled"},
@@ -107,6 +108,12 @@ func runC03(c *fw.Ctx, idx int) fw.Result {
 			W = r.Range(121, 2000)
 		}
 		n := r.Range(1, 40)
+		if idx%40 == 11 {
+			n = r.Range(150, 400)
+			if W > 200 {
+				W = r.Range(20, 200)
+			}
+		}
 		if idx%150 == 9 {
 			// very wide alignments (position labels beyond 2^15, 2^16, 2^17)
 			W = []int{r.Range(32700, 40000), r.Range(65500, 70000), r.Range(131000, 140000)}[r.Intn(3)]
